@@ -7,11 +7,11 @@ entry is read from the AST as well and the two must agree (disagreement = Transl
 not recognised is not an error: the probe stands, and a sentence goes into ADVISORIES (the pipeline then
 runs the correspondence streams widened).
 
-  * `noCheckReturn`  : the value of `client._NO_CHECK_RETURN` when it is a `str` (`none`: some other object;
+  * `noCheckReturn`  : the default of `callRemote`'s `returnSignature` parameter when it is a `str` (`none`: some other object;
                        no `str` return signature is equal to it).  AST: module-level assignment of a constant.
-  * `structOpen`     : the one character c such that `_cbCvtReply` hands a single value back as a LIST when the
-                       reply signature starts with c - found by calling `_cbCvtReply` with a one-value reply for
-                       every first character 0..127.  AST: the `Compare` of `<x>.signature[0]` / `signature[0]`
+  * `structOpen`     : the one character c such that a single value comes back as a LIST when the reply
+                       signature starts with c - found by converting a one-value reply (through the callback
+                       `callRemote` adds, or end to end) for every first character 0..127.  AST: the `Compare` of `<x>.signature[0]` / `signature[0]`
                        with a one-character constant, wherever in the class it now lives.
   * `serialStep`     : a message constructed while `DBusMessage._nextSerial == N` gets serial N and leaves the
                        counter at N + step - measured on real `MethodCallMessage` constructions at several N.
@@ -84,11 +84,18 @@ def _quiet_log():
 
 
 # --------------------------------------------------------------------------- probes
+# Everything is reached through public behaviour (harness/c08_locate.py): no private helper is named.
+def _loc():
+    from harness import c08_locate
+    return c08_locate
+
+
 def probe_sentinel():
     import txdbus.client as client
-    if not hasattr(client, '_NO_CHECK_RETURN'):
-        raise TranslatorError('txdbus.client has no _NO_CHECK_RETURN')
-    v = client._NO_CHECK_RETURN
+    try:
+        v = _loc().default_return_signature(client)
+    except _loc().LocateError as e:
+        raise TranslatorError(str(e))
     return str(v) if isinstance(v, str) else None
 
 
@@ -96,7 +103,12 @@ def probe_struct_open():
     """The set of first characters of a reply signature for which ONE value comes back wrapped in the list."""
     import types
     import txdbus.client as client
-    conn = client.DBusClientConnection()
+    from txdbus import message
+    L = _loc()
+    try:
+        conv = L.Converter(client, message)
+    except L.LocateError as e:
+        raise TranslatorError('reply converter not found: %s' % e)
     marker = object()
     wraps = []
     for cp in range(128):
@@ -104,15 +116,15 @@ def probe_struct_open():
         body = [marker]
         msg = types.SimpleNamespace(signature=c + 'i', body=body)
         try:
-            r = conn._cbCvtReply(msg, client._NO_CHECK_RETURN)
+            r = conv.convert(msg, conv.NOCHECK)
         except Exception as e:
-            raise TranslatorError('_cbCvtReply raised %r on a one-value reply with signature %r' % (e, c + 'i'))
+            raise TranslatorError('the reply conversion raised %r on a one-value reply with signature %r' % (e, c + 'i'))
         if r is marker:
             continue
         if r is body or (isinstance(r, list) and len(r) == 1 and r[0] is marker):
             wraps.append(c)
         else:
-            raise TranslatorError('_cbCvtReply returned neither the value nor the list for signature %r' % (c + 'i'))
+            raise TranslatorError('the reply conversion returned neither the value nor the list for signature %r' % (c + 'i'))
     if len(wraps) != 1:
         raise TranslatorError('the single-value convention is not "one character marks a struct": wrapped for %r'
                               % (wraps,))
@@ -121,25 +133,34 @@ def probe_struct_open():
 
 def probe_serial_step():
     from txdbus import message
-    cls = message.DBusMessage
-    saved = cls._nextSerial
+    counter = _loc().SerialCounter(message)
     steps = set()
-    try:
-        for n in (1, 7, 255, 65535, 2 ** 31):
-            cls._nextSerial = n
-            for kw in ({}, {'expectReply': False}, {'autoStart': False}):
-                before = cls._nextSerial
-                m = message.MethodCallMessage('/p', 'M', **kw)
-                if m.serial != before:
-                    raise TranslatorError('a message built while the counter is %d got serial %r' % (before, m.serial))
-                steps.add(cls._nextSerial - before)
-            before = cls._nextSerial
-            r = message.MethodReturnMessage(5)
-            if r.serial != before:
-                raise TranslatorError('a reply built while the counter is %d got serial %r' % (before, r.serial))
-            steps.add(cls._nextSerial - before)
-    finally:
-        cls._nextSerial = max(saved, 1)
+
+    def build_all():
+        last = None
+        for kw in ({}, {'expectReply': False}, {'autoStart': False}, None):
+            m = message.MethodReturnMessage(5) if kw is None else message.MethodCallMessage('/p', 'M', **kw)
+            if last is not None:
+                steps.add(m.serial - last)
+            last = m.serial
+        return last
+
+    if counter.settable():
+        saved = counter.peek()
+        try:
+            for n in (1, 7, 255, 65535, 2 ** 31):
+                counter.set(n)
+                first = message.MethodCallMessage('/p', 'M')
+                if first.serial != n:
+                    raise TranslatorError('a message built while the counter is %d got serial %r' % (n, first.serial))
+                steps.add(counter.peek() - n)
+                build_all()
+        finally:
+            counter.set(max(saved, 1))
+    else:
+        ADVISORIES.append('serialStep: no settable serial counter attribute found; consecutive constructions only')
+        for _ in range(8):
+            build_all()
     if len(steps) != 1:
         raise TranslatorError('the serial counter does not advance by a constant: %r' % sorted(steps))
     step = steps.pop()
@@ -151,20 +172,16 @@ def probe_serial_step():
 def probe_dc_guarded():
     """connectionLost on a ready connection with one raising disconnect callback and one call outstanding."""
     _quiet_log()
-    from twisted.internet.testing import StringTransport
     from twisted.python.failure import Failure
     from twisted.internet.error import ConnectionDone
     import txdbus.client as client
+    from txdbus import message
 
     class Boom(Exception):
         pass
 
-    conn = client.DBusClientConnection()
-    conn.factory = client.DBusClientFactory()
-    conn.factory.getConnection().addErrback(lambda f: None)
-    conn.transport = StringTransport()
-    conn.connectionAuthenticated()
-    conn.busName = ':1.0'
+    conn, tr, factory, hello = _loc().ready_connection(client, message)
+    conn.callRemote('/obj', 'Method', interface='org.t.Iface', destination='org.t.Dest').addErrback(lambda f: None)
 
     def raiser(c, reason):
         raise Boom()
